@@ -1,5 +1,6 @@
 import QV.Core.Num
 import QV.Model.C12
+import QV.Model.C12W
 open QV QV.C12
 
 def vec3 (a : Array Rat) (o : Nat) : Fin 3 → Rat := fun i => a[o + i.val]!
@@ -16,6 +17,24 @@ def step' (_ : Unit) (ts : List String) : Unit × String :=
         ((), showRat (pref m4Rat a[0]! a[1]! a[2]! e d))
       else ((), "bad-op")
     | none => ((), "bad-op")
+  | "widths" :: n1 :: m :: rest =>
+    match n1.toNat?, m.toNat?, parseRats? rest with
+    | some n1, some m, some vals =>
+      if h0 : vals.length = n1 * n1 + m * m + n1 + 2 * m ∧ 0 < n1 then
+        have hpos : 0 < n1 := h0.2
+        let a := vals.toArray
+        let S1 : Fin n1 → Fin n1 → Rat := fun i j => a[i.val * n1 + j.val]!
+        let S2 : Fin m → Fin m → Rat := fun i j => a[n1 * n1 + i.val * m + j.val]!
+        let w : Fin n1 → Rat := fun i => a[n1 * n1 + m * m + i.val]!
+        let idx (q : Rat) : Fin n1 := ⟨q.num.toNat % n1, Nat.mod_lt _ hpos⟩
+        let tw : Fin m → Fin n1 × Fin n1 := fun K =>
+          (idx a[n1 * n1 + m * m + n1 + 2 * K.val]!, idx a[n1 * n1 + m * m + n1 + 2 * K.val + 1]!)
+        let one := (List.finRange n1).map fun i => showRat (QV.C12W.oneDiag S1 w i)
+        let two := (List.finRange m).map fun A => showRat (QV.C12W.twoDiag S2 w tw A)
+        let crs := (List.finRange m).flatMap fun A => (List.finRange n1).map fun i => showRat (QV.C12W.cross S1 S2 w tw A i)
+        ((), " ".intercalate one ++ " | " ++ " ".intercalate two ++ " | " ++ " ".intercalate crs)
+      else ((), "bad-op")
+    | _, _, _ => ((), "bad-op")
   | ["m4"] => ((), " ".intercalate ((m4Rat.flatMap id).map showRat))
   | _ => ((), "bad-op")
 
